@@ -574,6 +574,24 @@ func (vc *VC) evalDSL(st *State, fi *FuncInfo, fn *types.Func, call *ast.CallExp
 		return sc(vc.anyHeld(st, "RBMutex", false), SBool)
 	case name == "heldShardR":
 		return sc(vc.anyHeld(st, "RBMutex", true), SBool)
+	case name == "loaded":
+		// loaded(x.f.Load()): the value this goroutine last loaded from the atomic field x.f in the function under
+		// verification (arbitrary if it never did)
+		lc, ok := unparen(call.Args[0]).(*ast.CallExpr)
+		if !ok {
+			panic(unsupported("loaded() expects an atomic Load call"))
+		}
+		se, ok := unparen(lc.Fun).(*ast.SelectorExpr)
+		if !ok || se.Sel.Name != "Load" {
+			panic(unsupported("loaded() expects an atomic Load call"))
+		}
+		p := vc.resolvePlace(st, se.X)
+		as, _ := isAtomicType(p.typ)
+		if p.kind != pHeap || as == "" || !lastLoadTracked[p.owner+p.path] {
+			panic(unsupported("loaded() of a field whose loads are not tracked"))
+		}
+		srt := ArrSort(SRef, Sort(as))
+		return sc(sel(vc.heapGet(st, "gh.lastload<"+p.owner+p.path+">", srt), p.ref), Sort(as))
 	case name == "heldToken":
 		return sc(vc.heapGet(st, "gh.token", SBool), SBool)
 	case name == "owned":
